@@ -137,9 +137,9 @@ def run(filters, jobs=16, timeout=7200, exact=False, extra=None, log_path=None):
     }
 
 
-def concrete_playback(harness, timeout=1800):
-    """Ask Kani for a concrete counterexample of one failing harness. Returns list of byte vectors
-    (one per kani::any() draw, in order) or None."""
+def concrete_playback(harness, timeout=900):
+    """Ask Kani for concrete counterexample candidates of one failing harness. Returns a list of candidates
+    (each a list of byte vectors, one per kani::any() draw, in order) or None."""
     cmd = ["cargo", "kani"] + KANI_FLAGS + ["-Z", "concrete-playback", "--concrete-playback=print",
                                             "--exact", "--harness", harness, "--output-format", "terse"]
     try:
@@ -151,12 +151,21 @@ def concrete_playback(harness, timeout=1800):
     k = out.find("Checking harness")
     if k >= 0:
         out = out[k:]
-    m = re.search(r"let concrete_vals: Vec<Vec<u8>> = vec!\[(.*?)\];", out, re.S)
-    if not m:
+    # one generated test per failed check / satisfied cover: candidates = failed-check inputs first, then
+    # cover witnesses (a cover witness is only *used* if the native replay confirms it violates the contract)
+    blocks = re.split(r"(?=/// Test generated for harness)", out)
+    cands = []
+    for b in blocks:
+        m = re.search(r"let concrete_vals: Vec<Vec<u8>> = vec!\[(.*?)\];", b, re.S)
+        if not m:
+            continue
+        vals = []
+        for vm in re.finditer(r"vec!\[([^\]]*)\]", m.group(1)):
+            vals.append([int(x) for x in re.findall(r"\d+", vm.group(1))])
+        is_cover = bool(re.search(r"Check for `cover`", b))
+        cands.append((1 if is_cover else 0, vals))
+    cands.sort(key=lambda t: t[0])
+    if not cands:
         return None, out[-4000:]
-    body = m.group(1)
-    vals = []
-    for vm in re.finditer(r"vec!\[([^\]]*)\]", body):
-        nums = [int(x) for x in re.findall(r"\d+", vm.group(1))]
-        vals.append(nums)
+    vals = [c[1] for c in cands]
     return vals, out[-6000:]
